@@ -115,6 +115,7 @@ class ResultTypesGenerator:
         self._used_scalars: List[str] = []
         self._fragments_used_as_mixins: Set[str] = set()
         self._unpacked_fragments: Set[str] = set()
+        self._fragments_bases: Dict[str, Set[str]] = {}
 
         if isinstance(
             self.operation_definition, FragmentDefinitionNode
@@ -642,11 +643,13 @@ class ResultTypesGenerator:
         return sorted(all_bases, key=lambda n: (-self._get_fragment_depth(n), n))
 
     def _get_direct_fragment_bases(self, fragment_name: str) -> Set[str]:
-        fragment_def = self.fragments_definitions[fragment_name]
-        _, bases = self._resolve_selection_set(
-            fragment_def.selection_set, fragment_def.type_condition.name.value
-        )
-        return bases
+        if fragment_name not in self._fragments_bases:
+            fragment_def = self.fragments_definitions[fragment_name]
+            _, bases = self._resolve_selection_set(
+                fragment_def.selection_set, fragment_def.type_condition.name.value
+            )
+            self._fragments_bases[fragment_name] = bases
+        return self._fragments_bases[fragment_name]
 
     def _get_fragment_bases(self, fragment_name: str) -> Set[str]:
         """Fragments which class of given fragment inherits from, directly or not."""
